@@ -50,7 +50,7 @@ def prepare(tier):
 
 def gen_config(rng, tier, index=0):
     if rng.random() < 0.04:
-        return {"workload": "keystress", "ploidy": rng.choice([4, 6, 8]), "n_haps": rng.choice([60, 130, 200]), "data_seed": rng.randrange(2 ** 31),
+        return {"workload": "keystress", "ploidy": rng.choice([1, 3, 4, 5, 6, 7, 8]), "n_haps": rng.choice([60, 130, 200]), "data_seed": rng.randrange(2 ** 31),
                 "n_samples": rng.choice([2, 3]), "queries": rng.randint(20, 60)}
     w = rng.choice(["assemble", "assemble", "assemble", "call", "pedigree", "pedigree"])
     if w == "assemble":
@@ -110,6 +110,16 @@ def run_keystress(ctx):
         i = ctx.tape.int(0, total - 1)
         s_ = ctx.tape.int(0, ns - 1)
         queries.append((s_, i))
+        if ctx.tape.chance(0.3):
+            # genotypes that differ only in one high-numbered allele
+            g0 = [int(v) for v in to_g(int(i), pl)]
+            g0[-1] = nh - 1 - ctx.tape.int(0, min(nh - 1, 40))
+            g0 = sorted(g0)
+            queries.append((s_, int(m["jitutils"].genotype_alleles_as_index(np.array(g0, dtype=np.int64)))))
+            g0[-1] = nh - 1 - ctx.tape.int(0, min(nh - 1, 40))
+            g0 = sorted(g0)
+            queries.append((s_, int(m["jitutils"].genotype_alleles_as_index(np.array(g0, dtype=np.int64)))))
+            ctx.counters.inc("keystress_high_allele_pairs")
         w = [8, 16, 24, 31, 32, 33, 40][ctx.tape.int(0, 6)]
         j = i + (1 << w) if i + (1 << w) < total else i - (1 << w)
         if 0 <= j < total:
